@@ -27,6 +27,25 @@ GROUPS = {
         nontrivial='populations with at least 30 non-relay paths (below that pruning must do nothing)',
         functions=['prune_non_relay_paths'],
     ),
+    # second line behind the Verus unit auth_token: catches rewrites into forms Verus cannot take (exit 2 there)
+    # second line behind the Verus unit builder_bind
+    'builder_bind_bx': dict(
+        unit='builder_bind.rs', props=['C20'],
+        bounds=dict(quick=['3', '0'], thorough=['4', '0']),
+        space='every multiset of at most {0} bind calls over 12 (family, prefix length, explicit default flag) combinations — implicit default (/0), '
+              'non-default (/24), explicit default, explicit non-default /0, invalid prefix, full-length explicit default, for IPv4 and IPv6 — each in EVERY order',
+        nontrivial='sequences of at least two bind calls',
+        functions=['Builder::bind_addr_with_opts'],
+    ),
+    'auth_token_bx': dict(
+        unit='auth_token.rs', props=['C12'],
+        bounds=dict(quick=['3', '0'], thorough=['4', '0']),
+        space='every request with at most {0} Authorization header values drawn from 10 values (Bearer/bearer/BEARER with one or two spaces, other '
+              'schemes, no space, leading space, empty token, non-text bytes before/after the scheme) and one of 8 URI queries (none, empty, token first/later/twice, '
+              'look-alike name, bare name, empty segment with a plus)',
+        nontrivial='requests with at least one Authorization header and a query',
+        functions=['ClientRequest::auth_token', 'ClientRequest::query_pairs'],
+    ),
 }
 
 
@@ -45,20 +64,51 @@ def run_group(g, prop, tier='quick', only=None):
     work = os.path.join(CACHE, f'{g}.{os.getpid()}')
     os.makedirs(work, exist_ok=True)
     try:
-        old_mode = rustlex.VERUS_MODE
-        try:
-            text, regions, log, unit = extract.generate(os.path.join(HERE, 'units', d['unit']))
-        except extract.LostAnchor as e:
-            res['reason'] = f'lost anchor: {e}'
-            return res
-        except (extract.UnitError, rustlex.LexError) as e:
-            res['reason'] = f'unit error: {e}'
-            return res
-        finally:
-            rustlex.VERUS_MODE = old_mode
-        src = os.path.join(work, 'main.rs')
-        with open(src, 'w') as f:
-            f.write(text)
+        import run as vxrun
+        extra_tail = ''
+        auto = []
+        for _round in range(4):
+            old_mode = rustlex.VERUS_MODE
+            try:
+                text, regions, log, unit = extract.generate(os.path.join(HERE, 'units', d['unit']), extra_tail or None)
+            except extract.LostAnchor as e:
+                res['reason'] = f'lost anchor: {e}'
+                return res
+            except (extract.UnitError, rustlex.LexError) as e:
+                res['reason'] = f'unit error: {e}'
+                return res
+            finally:
+                rustlex.VERUS_MODE = old_mode
+            src = os.path.join(work, 'main.rs')
+            with open(src, 'w') as f:
+                f.write(text)
+            cmd = ['rustc', '--edition', '2024', '-O', '-o', os.path.join(work, 'main'), src]
+            p = subprocess.run(cmd + ['--error-format=json'], capture_output=True, text=True, timeout=600)
+            if p.returncode == 0:
+                break
+            # a change may call a helper that did not exist when the unit was written: extract it verbatim and retry
+            diags = []
+            for ln in p.stderr.split('\n'):
+                if ln.startswith('{'):
+                    try:
+                        diags.append(json.loads(ln))
+                    except Exception:
+                        pass
+            missing = [m for m in vxrun.find_missing_callees(diags, regions) if m not in auto]
+            if not missing or _round == 3:
+                errs = [dd.get('message', '') for dd in diags if dd.get('level') == 'error']
+                res['reason'] = 'rustc rejected the extracted text (changed code uses something the shims lack): ' + ' | '.join(errs)[:600]
+                res['tool_output'] = [dd.get('rendered', '') for dd in diags if dd.get('level') == 'error'][:4]
+                return res
+            for (owner, fname, relpath, src_owner) in missing:
+                auto.append((owner, fname, relpath, src_owner))
+                if owner == '#const':
+                    extra_tail += f'\n//@item {relpath} const {fname}\n'
+                elif owner:
+                    extra_tail += f'\nimpl {owner} {{\n//@fn {relpath} {src_owner}::{fname}\n//@end\n}}\n'
+                else:
+                    extra_tail += f'\n//@fn {relpath} {fname}\n//@end\n'
+        res['auto_extracted'] = [f'{o + "::" if o and o != "#const" else ""}{f} ({r})' for (o, f, r, _s) in auto]
         res['generated_sha256'] = hashlib.sha256(text.encode()).hexdigest()
         res['rewrites'] = log
         for r in regions:
@@ -67,18 +117,10 @@ def run_group(g, prop, tier='quick', only=None):
                 res['functions'].append(dict(unit=f'bx:{g}', function=r.name, file=i['src_file'], lines=[i['src_start'], i['src_end']], sha256=i['sha256'],
                                              dropped_attrs=i.get('dropped_attrs', [])))
         res['trusted_base'] = [
-            'std HashMap stands in for rustc_hash::FxHashMap (same API, different hasher)',
-            'transports::Addr reduced to identity + is_relay(); Source/sources unused by pruning',
+            'executable std-only shims of the dependencies as written in bx/units/%s' % d['unit'],
             'rustc and std are correct; the harness oracle restates the property (see bx/units/%s)' % d['unit'],
         ]
-        cmd = ['rustc', '--edition', '2021', '-O', '-o', os.path.join(work, 'main'), src]
         res['cmds'].append(' '.join(cmd).replace(work, '<generated ' + g + '>'))
-        p = subprocess.run(cmd, capture_output=True, text=True, timeout=600)
-        if p.returncode != 0:
-            res['reason'] = 'rustc rejected the extracted text (changed code uses something the shims lack): ' + ' | '.join(
-                l for l in p.stderr.split('\n') if l.startswith('error'))[:600]
-            res['tool_output'] = [p.stderr[-3000:]]
-            return res
         bounds = list(d['bounds'][tier if tier in d['bounds'] else 'quick'])
         args = [os.path.join(work, 'main')] + bounds + ([only] if only else [])
         res['cmds'].append(('<generated %s>/main ' % g) + ' '.join(bounds + ([only] if only else [])))
@@ -110,7 +152,7 @@ def run_group(g, prop, tier='quick', only=None):
             res['failures'].append(dict(obligation=f'{f["obligation"]}[{f["class"]}]', class_=f['class'],
                                         message=f'{f["detail"]} on input {f["input"]} ({n} failing inputs of this kind within the bound)',
                                         concrete=dict(input=f['input'], detail=f['detail'], failing_inputs_of_this_kind=n,
-                                                      rerun=f'{" ".join(bounds)} <open,unknown,inactive,unusable,relay>')))
+                                                      rerun=f'<harness> {" ".join(bounds)} "<input>"')))
         res['status'] = 'failed' if res['failures'] else 'ok'
         return res
     finally:
